@@ -93,7 +93,23 @@ SCOPE = (
     "climate pairs involving a series whose anomaly spread is below 1e7 eps max|observable| or "
     "(Spearman) has two values closer than 64 eps max|observable|.  A series constant at a value "
     "whose float64 mean is not the value has one dedicated probe "
-    "(cross_correlation/constant-series-inexact-mean, pure.cross_correlation/...)."
+    "(cross_correlation/constant-series-inexact-mean, pure.cross_correlation/...).  "
+    "Round 3, CouplingAnalysisPurePython: time_surrogate_for_cc / _mi in lag modes all/sum/max "
+    "(sample_range = T - 2 tau_max: equals the statistic of cross_correlation / the documented "
+    "normalised MI formula on equal-count bins, independent of the RNG; smaller sample_range: the "
+    "statistic over np.random.permutation(range(tau_max, T - tau_max))[:sample_range] with the "
+    "global RNG seeded), mutual_information_edges (every ceil(T/bins)-th order statistic of each "
+    "series, data unchanged, and these bins reproduce mutual_information(tau_max=0)), "
+    "correlatedNoiseSurrogates (same shape, real, |rfft| equal to the original's within 1e-9 of the "
+    "largest amplitude, also on the second call that uses the cached FFT) and the fourier=True "
+    "variants of shuffled_surrogate_for_cc / _mi (shape, bounds, symmetry, unit diagonal of "
+    "non-constant series; MI only when bins divides the sample length and for pairs of non-constant "
+    "series, looser bounds for the 'sine' kind whose surrogates can have tied values), 3-D and 4-D "
+    "input arrays of both classes (estimates of the row-major flattened series): 200 sampled "
+    "(thorough: all 6561) T=4 two-column series over {0,1,2} and 4 / 40 repetitions x 9 kinds x 4 "
+    "shapes, T 5..120, N 2..12, tau_max 0..3, bins 1..T+3, even and odd T.  CouplingAnalysis."
+    "test_data is only required to be a data set of the property's domain and is used as one more "
+    "input (kind 'test_data') of the cc / ccpure / mi / it / mipure / nd families."
 )
 RULE = (
     "A case is (family, data descriptor, estimator arguments); data descriptors are explicit "
